@@ -69,6 +69,13 @@ partial def parseKeySpec (s : List Char) : Option (KeySrc × List Char) :=
       let body := (t.drop 2).toString
       if body.isEmpty then some (.list [], rest)
       else ((body.splitOn ",").mapM parseKey).map fun ks => (.list ks, rest)
+    else if t.startsWith "N:" then
+      -- keys from an iterator that is not fused (`-` = a `None` it returns before going on): a key source ends at the first
+      -- `None` of its iterator, whatever the iterator would yield afterwards
+      let toks := (t.drop 2).toString.splitOn ","
+      match (toks.filter (· ≠ "-")).mapM parseKey with
+      | some _ => ((toks.takeWhile (· ≠ "-")).mapM parseKey).map fun ks => (.list ks, rest)
+      | none => none
     else if t.startsWith "P" ∨ t.startsWith "R" then   -- `R`: the same path handed over by reference (same keys)
       match (t.drop 1).toString.splitOn ":" with
       | [cp, text] => do
